@@ -9,7 +9,7 @@ Summary of what is proved (entry point × outcome):
 
 | entry | outcome | frames / base / min_frame_registers / placeholders | registers | builders |
 |---|---|---|---|---|
-| pushes a barrier frame (`run`, `call_and_run_function` on a Koto callee, `run_*_op` on a Koto overload, each test of `run_tests`, `run` inside `run_import`) | ok, thrown, runtime error, failed type check, failed test, timeout, error in a nested entry, … (every event list) | restored (`entry_clean_frames`) | restored exactly (`entry_regs_restored`, `entry_clean`; no residue even without the no-wrap hypothesis: `entry_no_register_residue`) | restored iff no error unwinds through a builder opened inside (`raise_keeps_builders`, negations `run_builders_not_clean_*`) |
+| pushes a barrier frame (`run`, `call_and_run_function` on a Koto callee, `run_*_op` on a Koto overload, each test of `run_tests`, `run` inside `run_import`) | ok, thrown, runtime error, failed type check, failed test, timeout, error in a nested entry, … (every event list) | restored (`entry_clean_frames`) | restored exactly (`entry_regs_restored`, `entry_clean`; no residue even without the no-wrap hypothesis: `entry_no_register_residue`) | no residue for every execution (`entry_no_builder_residue`); restored exactly unless the execution finishes a builder of its caller (`entry_clean`; fix 97373d1) |
 | `call_and_run_function`, native callee | returns Ok / Err | restored (`entry_native_frames`) | restored (`call_native_ok_clean`, `call_native_err_clean` — since fix 5247d9c) | – |
 | `call_and_run_function`, `call_callable` fails (argument count, …) | – | restored | restored (`call_setup_fail_clean` — since fix 5247d9c) | – |
 | `run_*_op` through `call_overridden_op_N`, native overload returns Err / `call_callable` fails | – | restored | restored (`opcall_native_err_clean`, `opcall_setup_fail_clean`, `op_arith_overload_err_clean` — since fix d4834c0) | – |
@@ -87,19 +87,24 @@ theorem entry_no_register_residue (s : St) (pre args a : Nat) (evs : List Ev)
   rw [Nat.mod_eq_of_lt hw] at h
   omega
 
-/-- **entry_clean (registers)**: under the no-wrap hypothesis for the entry's *own* window
-(`regs - base + pre < 256`; nothing is assumed about nested entries — their result registers may
-wrap, every frame they use still lies above `regs`), the value stack has exactly its old length
-when the entry returns: nothing is left behind and nothing of the caller's is cut off, for every
-execution and every outcome. -/
-theorem entry_regs_restored (s : St) (pre args a : Nat) (evs : List Ev)
+/-- The second invariant (`Lemmas/C07Regs.lean`) at the exit of a bracket, for claimed builder
+lower bounds `ql tl` (`0 0`: no hypothesis on the execution; `seq str`: the execution never pops a
+builder of its caller, `SafeUntil`). -/
+theorem entry_bounds (s : St) (pre args a : Nat) (evs : List Ev) (ql tl : Nat)
     (hhost : inLoop s = false) (hc : Consistent s.vm) (hw : s.vm.regs - s.vm.base + pre < 256)
+    (hql : ql ≤ s.vm.seq) (htl : tl ≤ s.vm.str)
+    (hsafe : SafeUntil ⟨s.vm.regs, s.vm.seq, s.vm.str, ql, tl⟩ s.conts.length evs
+      (enter pre args (.koto a) s))
     (hex : Exited s (runEntry pre args (.koto a) evs s)) :
-    (runEntry pre args (.koto a) evs s).vm.regs = s.vm.regs := by
+    let s' := runEntry pre args (.koto a) evs s
+    s'.vm.regs = s.vm.regs ∧ s'.vm.seq ≤ s.vm.seq ∧ s'.vm.str ≤ s.vm.str ∧
+    min ql s.vm.seq ≤ s'.vm.seq ∧ min tl s.vm.str ≤ s'.vm.str := by
+  intro s'
   have hr := hc.regs
   have hup := entry_no_register_residue s pre args a evs hhost hc (by omega) hex
   have hfr := (entry_clean_frames s pre args a evs hhost hc hex).1
   let x0 : Exit := .truncate (nextRegister s.vm)
+  let B : Bnd := ⟨s.vm.regs, s.vm.seq, s.vm.str, ql, tl⟩
   have hw1 : (s.vm.regs - s.vm.base) % 256 = s.vm.regs - s.vm.base := Nat.mod_eq_of_lt (by omega)
   have hw2 : (s.vm.regs + pre - s.vm.base) % 256 = s.vm.regs + pre - s.vm.base :=
     Nat.mod_eq_of_lt (by omega)
@@ -112,16 +117,21 @@ theorem entry_regs_restored (s : St) (pre args a : Nat) (evs : List Ev)
     · simp [enter, enterWith, callKoto, pushFrame, impMods]
     · intro _; rfl
     · intro hn; simp at hn
-  have hself : GeAbove s.vm.regs s.vm.stack s.vm.stack := by
-    intro X hX f hf
+  have hself : GeAbove B s.vm.stack s.vm.stack := by
+    intro X hX
     have : X = [] := List.self_eq_append_left.mp hX
-    subst this; simp at hf
-  have hl0 : Low s.vm.regs (.loop x0) s.vm.stack (enter pre args (.koto a) s) [.loop x0] := by
-    refine ⟨fun _ => ?_, fun _ => ?_, fun hn => by simp at hn⟩
-    · simp [enter, enterWith, callKoto, pushFrame, nextRegister, hw2]; omega
+    subst this
+    exact ⟨fun f hf => by simp at hf, fun b hb => by simp at hb⟩
+  have hl0 : Low B (.loop x0) s.vm.stack (enter pre args (.koto a) s) [.loop x0] := by
+    refine ⟨fun _ => ?_, fun _ => ?_, fun _ => ?_, fun _ => ?_, fun hn => by simp at hn⟩
+    · simp [enter, enterWith, callKoto, pushFrame, nextRegister, hw2, B]; omega
+    · simpa [enter, enterWith, callKoto, pushFrame, B] using hql
+    · simpa [enter, enterWith, callKoto, pushFrame, B] using htl
     · simp only [enter, enterWith, callKoto, pushFrame]
-      exact GeAbove_cons _ _ _ _ [] rfl (by simp [nextRegister, hw2]; omega) hself
-  obtain ⟨Y', h', hl'⟩ := runUntil_low s x0 hhost hc s.vm.regs evs _ _ h0 hl0
+      refine GeAbove_cons B _ _ _ [] rfl ⟨?_, hql, htl, fun c hc => by simp at hc⟩
+        (fun _ => ⟨rfl, rfl⟩) hself
+      simp [nextRegister, hw2, B]; omega
+  obtain ⟨Y', h', hl'⟩ := runUntil_low s x0 hhost hc B evs _ _ h0 hl0 hsafe
   have hY : Y' = [] := by
     have := h'.conts
     have hex' : (runEntry pre args (.koto a) evs s).conts.length ≤ s.conts.length := hex
@@ -130,24 +140,63 @@ theorem entry_regs_restored (s : St) (pre args a : Nat) (evs : List Ev)
     simp at hex'
     exact List.eq_nil_of_length_eq_zero (by omega)
   have hd := hl'.doneR hY
-  simp only [DoneR, x0] at hd
+  simp only [DoneR, x0, B] at hd
   have hb : (runUntil s.conts.length evs (enter pre args (.koto a) s)).vm.base = s.vm.base := hfr.2.1
   rw [hb] at hd
   simp only [nextRegister, hw1] at hd
   have hup' : (runUntil s.conts.length evs (enter pre args (.koto a) s)).vm.regs ≤ s.vm.regs := hup
+  refine ⟨?_, hd.2.1, hd.2.2.1, hd.2.2.2.1, hd.2.2.2.2⟩
   show (runUntil s.conts.length evs (enter pre args (.koto a) s)).vm.regs = s.vm.regs
+  have := hd.1
   omega
 
-/-- **entry_clean**: every component of the runtime's bookkeeping except the builder depths is
-restored by every entry through a Koto callee, for every execution and outcome. -/
-theorem entry_clean (s : St) (pre args a : Nat) (evs : List Ev)
+/-- **entry_clean (registers)**: under the no-wrap hypothesis for the entry's *own* window
+(`regs - base + pre < 256`; nothing is assumed about nested entries — their result registers may
+wrap, every frame they use still lies above `regs`), the value stack has exactly its old length
+when the entry returns: nothing is left behind and nothing of the caller's is cut off, for every
+execution and every outcome. -/
+theorem entry_regs_restored (s : St) (pre args a : Nat) (evs : List Ev)
     (hhost : inLoop s = false) (hc : Consistent s.vm) (hw : s.vm.regs - s.vm.base + pre < 256)
     (hex : Exited s (runEntry pre args (.koto a) evs s)) :
-    let s' := runEntry pre args (.koto a) evs s
-    s'.vm.regs = s.vm.regs ∧ CleanFrames s.vm s'.vm ∧ s'.conts = s.conts :=
-  ⟨entry_regs_restored s pre args a evs hhost hc hw hex,
-   (entry_clean_frames s pre args a evs hhost hc hex).1,
-   (entry_clean_frames s pre args a evs hhost hc hex).2.1⟩
+    (runEntry pre args (.koto a) evs s).vm.regs = s.vm.regs :=
+  (entry_bounds s pre args a evs 0 0 hhost hc hw (Nat.zero_le _) (Nat.zero_le _)
+    (safeUntil_zero _ rfl rfl _ _ _) hex).1
+
+/-- **No builder residue** (F-C07-2, repaired by fix 97373d1): whatever the execution does and
+however it ends — value, thrown value, runtime error, failed type check, timeout, caught or not,
+at any depth of calls, native callbacks, imports, list/tuple literals and interpolations — when the
+entry returns the builder stacks hold at most what they held before: the entry's barrier frame
+records the builder counts at `push_frame`, and `pop_frame` truncates to them on every exit path. -/
+theorem entry_no_builder_residue (s : St) (pre args a : Nat) (evs : List Ev)
+    (hhost : inLoop s = false) (hc : Consistent s.vm) (hw : s.vm.regs - s.vm.base + pre < 256)
+    (hex : Exited s (runEntry pre args (.koto a) evs s)) :
+    (runEntry pre args (.koto a) evs s).vm.seq ≤ s.vm.seq ∧
+    (runEntry pre args (.koto a) evs s).vm.str ≤ s.vm.str :=
+  let h := entry_bounds s pre args a evs 0 0 hhost hc hw (Nat.zero_le _) (Nat.zero_le _)
+    (safeUntil_zero _ rfl rfl _ _ _) hex
+  ⟨h.2.1, h.2.2.1⟩
+
+/-- **entry_clean**: the *whole* clean-state predicate — registers, call stack, `register_base`,
+`min_frame_registers`, sequence builders, string builders, module placeholders — is restored by
+every entry through a Koto callee, for every outcome and every execution that does not finish a
+list/tuple/string of its caller (`SafeUntil`: no `SequenceToList` / `StringFinish` is executed at
+the caller's builder depth — true for all compiled code, whose builder instructions are balanced
+within a frame; without this hypothesis `entry_no_builder_residue` still gives `≤`). -/
+theorem entry_clean (s : St) (pre args a : Nat) (evs : List Ev)
+    (hhost : inLoop s = false) (hc : Consistent s.vm) (hw : s.vm.regs - s.vm.base + pre < 256)
+    (hsafe : SafeUntil ⟨s.vm.regs, s.vm.seq, s.vm.str, s.vm.seq, s.vm.str⟩ s.conts.length evs
+      (enter pre args (.koto a) s))
+    (hex : Exited s (runEntry pre args (.koto a) evs s)) :
+    Clean s.vm (runEntry pre args (.koto a) evs s).vm ∧
+    (runEntry pre args (.koto a) evs s).conts = s.conts := by
+  have hb := entry_bounds s pre args a evs s.vm.seq s.vm.str hhost hc hw (Nat.le_refl _)
+    (Nat.le_refl _) hsafe hex
+  have hf := entry_clean_frames s pre args a evs hhost hc hex
+  simp only [] at hb hf
+  obtain ⟨⟨h2, h3, h4, h5⟩, h6, _⟩ := hf
+  refine ⟨⟨hb.1, h2, h3, h4, ?_, ?_, h5⟩, h6⟩
+  · have := hb.2.1; have := hb.2.2.2.1; simp only [Nat.min_self] at *; omega
+  · have := hb.2.2.1; have := hb.2.2.2.2; simp only [Nat.min_self] at *; omega
 
 /-- Host-level corollary (the shape of C07): on an instance whose bookkeeping is all-zero, a
 `run` / `call_function` on a Koto callee, with any execution and any outcome, leaves registers,
@@ -402,10 +451,9 @@ theorem residue_wraps_register_numbering (s : St) (hconts : s.conts = []) (hstac
   simp [runEntry, runUntil, enter, enterWith, step, inLoop, callKoto, pushFrame, nextRegister, hregs,
     hbase, hstack, modTop, popTo, truncate]
 
-/-! ## F-C07-2: builders are not unwound -/
+/-! ## F-C07-2 (repaired by fix 97373d1): builders are unwound with their frames -/
 
-theorem unwindGo_builders (c : Bool) : ∀ (fs : List Frame) (vm : VM),
-    (unwindGo c fs vm).1.seq = vm.seq ∧ (unwindGo c fs vm).1.str = vm.str ∧
+theorem unwindGo_exports (c : Bool) : ∀ (fs : List Frame) (vm : VM),
     (unwindGo c fs vm).1.exports = vm.exports := by
   intro fs
   induction fs with
@@ -419,25 +467,19 @@ theorem unwindGo_builders (c : Bool) : ∀ (fs : List Frame) (vm : VM),
       · simp [hb]
       · have hb' : f.barrier = false := by simpa using hb
         simp only [hb', Bool.false_eq_true, if_false]
-        have hp := popTo_fields f rest vm
-        have := ih (popTo f rest vm).1
-        exact ⟨by rw [this.1, hp.2.2.2.2.1], by rw [this.2.1, hp.2.2.2.2.2.1],
-          by rw [this.2.2, hp.2.2.2.2.2.2.1]⟩
+        rw [ih (popTo f rest vm).1, (popTo_fields f rest vm).2.2.2.2.2.2.1]
 
-theorem exitErr_builders (x : Exit) (vm : VM) :
-    (exitErr x vm).seq = vm.seq ∧ (exitErr x vm).str = vm.str ∧ (exitErr x vm).exports = vm.exports := by
+theorem exitErr_exports (x : Exit) (vm : VM) : (exitErr x vm).exports = vm.exports := by
   cases hs : vm.stack with
   | nil => cases x <;> simp [exitErr, popFrameD, popFrame, hs, truncate]
   | cons f rest =>
     have hp := popTo_fields f rest vm
     cases x <;> simp [exitErr, popFrameD, popFrame, hs, truncate, hp]
 
-/-- **Root cause of F-C07-2 (and F-C04-4)**: raising an error — caught or not, through any number
-of frames and nested entries — never changes the builder depths. A builder that is open when the
-error is raised stays on the stack. (Exports made before the error also remain: the positive half
-of "completed effects remain".) -/
-theorem raise_keeps_builders : ∀ (conts : List Cont) (c : Bool) (vm : VM),
-    (raiseGo conts c vm).vm.seq = vm.seq ∧ (raiseGo conts c vm).vm.str = vm.str ∧
+/-- Exports made before an error remain (the positive half of "completed effects remain"):
+raising an error — caught or not, through any number of frames and nested entries — never changes
+the active exports map. -/
+theorem raise_keeps_exports : ∀ (conts : List Cont) (c : Bool) (vm : VM),
     (raiseGo conts c vm).vm.exports = vm.exports := by
   intro conts
   induction conts with
@@ -448,7 +490,7 @@ theorem raise_keeps_builders : ∀ (conts : List Cont) (c : Bool) (vm : VM),
     | native a b => simp [raiseGo]
     | importing a b => simp [raiseGo]
     | loop x =>
-      have hu := unwindGo_builders c vm.stack vm
+      have hu := unwindGo_exports c vm.stack vm
       have hune : unwind c vm = unwindGo c vm.stack vm := rfl
       rcases hres : unwindGo c vm.stack vm with ⟨vm1, r⟩
       rw [hres] at hu
@@ -458,44 +500,40 @@ theorem raise_keeps_builders : ∀ (conts : List Cont) (c : Bool) (vm : VM),
         rw [raiseGo_loop_some x rest c vm vm1 cr (by rw [hune, hres])]
         exact hu
       | none =>
-        have hx := exitErr_builders x vm1
+        have hx := exitErr_exports x vm1
         cases raiseGo_loop_none x rest c vm vm1 (by rw [hune, hres]) with
-        | inl h =>
-          rw [h]
-          have := ih true (exitErr x vm1)
-          exact ⟨by rw [this.1, hx.1, hu.1], by rw [this.2.1, hx.2.1, hu.2.1],
-            by rw [this.2.2, hx.2.2, hu.2.2]⟩
-        | inr h =>
-          rw [h]
-          exact ⟨by rw [hx.1, hu.1], by rw [hx.2.1, hu.2.1], by rw [hx.2.2, hu.2.2]⟩
+        | inl h => rw [h, ih true (exitErr x vm1), hx, hu]
+        | inr h => rw [h]; simp only []; rw [hx, hu]
 
-/-- Negation of `entry_clean` for builders, uncaught: `f = || throw 'x'` / `[1, f()]` run on a
-fresh runtime ends with one sequence builder left (everything else is clean). -/
-theorem run_builders_not_clean_uncaught :
+/-- The former negation witnesses of F-C07-2 are clean now. Uncaught: `f = || throw 'x'` /
+`[1, f()]` run on a fresh runtime (before the fix: one sequence builder left). -/
+theorem run_builders_clean_uncaught :
     let s' := runEntry 0 0 (.koto 0) [.newFrame 4, .seqStart, .call 2 0, .newFrame 1, .raise true] init
-    Exited init s' ∧ ¬ Clean init.vm s'.vm ∧ snapshot s'.vm = (0, 0, 1, 0, 0) := by decide
+    Exited init s' ∧ Clean init.vm s'.vm ∧ snapshot s'.vm = (0, 0, 0, 0, 0) := by decide
 
-/-- … and caught: the run *succeeds* (`try [1, f()] catch e 0`), the builder is still left. -/
-theorem run_builders_not_clean_caught :
+/-- … caught: `try [1, f()] catch e 0` — the catch point recorded the builder counts at `TryStart`. -/
+theorem run_builders_clean_caught :
     let s' := runEntry 0 0 (.koto 0)
       [.newFrame 4, .tryStart 1 9, .seqStart, .call 2 0, .newFrame 1, .raise true, .tryEnd, .ret] init
-    Exited init s' ∧ ¬ Clean init.vm s'.vm ∧ snapshot s'.vm = (0, 0, 1, 0, 0) := by decide
+    Exited init s' ∧ Clean init.vm s'.vm ∧ snapshot s'.vm = (0, 0, 0, 0, 0) := by decide
 
 /-- String interpolation, error raised inside a native callback two entries deep, timeout variant
-(`raise false` is not catchable by the `try` of the same entry). -/
-theorem run_string_builder_not_clean :
+(`raise false` is not catchable by the `try` of the same entry; re-raised by the native it is). -/
+theorem run_string_builder_clean :
     let s' := runEntry 0 0 (.koto 0)
       [.newFrame 4, .tryStart 1 9, .strStart, .callNative 3, .enter 1 2 (.koto 2), .newFrame 3,
        .raise false, .nativeRet false, .tryEnd, .strStart, .strEnd, .ret] init
-    Exited init s' ∧ ¬ Clean init.vm s'.vm ∧ snapshot s'.vm = (0, 0, 0, 1, 0) := by decide
+    Exited init s' ∧ Clean init.vm s'.vm ∧ snapshot s'.vm = (0, 0, 0, 0, 0) := by decide
 
-/-- **entry_clean_partial**: the full `Clean` predicate holds for a host-level entry through a
-Koto callee on an instance without residue, for every execution *that executes no builder event*
-and every outcome. Exactly excluded: executions with `SequenceStart`/`StringStart`… events — for
-those `Clean` fails precisely when an error unwinds through a builder opened inside the bracket
-(`raise_keeps_builders` + the three witnesses above). (The early-return residue of F-C07-1 /
-F-C07-3 is gone since fixes 5247d9c / d4834c0: `call_*_clean`, `opcall_*_clean`,
-`op_direct_err_clean`.) -/
+/-- F-C04-4 shape: the callee recovers from an error raised inside its own interpolation while the
+caller is building a string: the callee's stale builder is discarded at the catch point, the caller
+finishes *its own* builder. -/
+theorem nested_string_builders_example :
+    let st := run [.newFrame 4, .strStart, .call 2 0, .newFrame 3, .tryStart 1 9, .strStart,
+      .call 2 0, .newFrame 1, .raise true] (enter 0 0 (.koto 0) init)
+    st.vm.str = 1 ∧ (run [.tryEnd, .ret, .strEnd, .ret] st).vm.str = 0 := by decide
+
+/-- executions without builder events -/
 def builderFree : List Ev → Bool
   | [] => true
   | .seqStart :: _ => false
@@ -504,192 +542,52 @@ def builderFree : List Ev → Bool
   | .strEnd :: _ => false
   | _ :: rest => builderFree rest
 
-theorem enterWith_builders (t : Bool) (pre args : Nat) (c : Callee) (st : St) :
-    (enterWith t pre args c st).vm.seq = st.vm.seq ∧ (enterWith t pre args c st).vm.str = st.vm.str := by
-  cases c with
-  | koto a => simp [enterWith, callKoto, pushFrame]
-  | native => simp [enterWith]
-  | fail =>
-    cases t with
-    | true =>
-      have := raise_keeps_builders st.conts true
-        (truncate (nextRegister st.vm) { st.vm with regs := st.vm.regs + pre + 1 + args })
-      exact ⟨this.1, this.2.1⟩
-    | false =>
-      have := raise_keeps_builders st.conts true { st.vm with regs := st.vm.regs + pre + 1 + args }
-      exact ⟨this.1, this.2.1⟩
-
-theorem step_builders_of_not_builder_event (ev : Ev) (st : St)
-    (h : builderFree [ev] = true) :
-    (step ev st).vm.seq = st.vm.seq ∧ (step ev st).vm.str = st.vm.str := by
-  cases ev with
-  | seqStart => simp [builderFree] at h
-  | seqEnd => simp [builderFree] at h
-  | strStart => simp [builderFree] at h
-  | strEnd => simp [builderFree] at h
-  | enter pre args c => exact enterWith_builders true pre args c st
-  | enterOp pre args c => exact enterWith_builders true pre args c st
-  | enterDirect pre ok =>
-    cases ok with
-    | true => simp [step, enterDirect, truncate]
-    | false =>
-      have := raise_keeps_builders st.conts true
-        (truncate (nextRegister st.vm) { st.vm with regs := st.vm.regs + pre })
-      exact ⟨this.1, this.2.1⟩
-  | newFrame n =>
-    by_cases hin : inLoop st = true
-    · cases hs : st.vm.stack <;> simp [step, hin, modTop, hs]
-    · simp [step, hin]
-  | tryStart r ip =>
-    by_cases hin : inLoop st = true
-    · cases hs : st.vm.stack <;> simp [step, hin, modTop, hs]
-    · simp [step, hin]
-  | tryEnd =>
-    by_cases hin : inLoop st = true
-    · cases hs : st.vm.stack <;> simp [step, hin, modTop, hs]
-    · simp [step, hin]
-  | call fb a =>
-    by_cases hin : inLoop st = true
-    · simp [step, hin, callKoto, pushFrame]
-    · simp [step, hin]
-  | callNative fb =>
-    by_cases hin : inLoop st = true <;> simp [step, hin]
-  | exportVal k =>
-    by_cases hin : inLoop st = true <;> simp [step, hin]
-  | raise c =>
-    by_cases hin : inLoop st = true
-    · have := raise_keeps_builders st.conts c st.vm
-      simpa [step, hin, raise] using ⟨this.1, this.2.1⟩
-    · simp [step, hin]
-  | nested a b =>
-    by_cases hfb : st.vm.regs - st.vm.base > 255
-    · have := raise_keeps_builders st.conts true st.vm
-      simpa [step, nested, hfb, raise] using ⟨this.1, this.2.1⟩
-    · simp [step, nested, hfb, callKoto, pushFrame]
-  | importBegin m =>
-    by_cases hin : inLoop st = true
-    · by_cases hm : m ∈ st.vm.placeholders
-      · have := raise_keeps_builders st.conts true st.vm
-        simpa [step, hin, hm, raise] using ⟨this.1, this.2.1⟩
-      · by_cases hcd : m ∈ st.vm.cached <;> simp [step, hin, hm, hcd]
-    · simp [step, hin]
-  | ret =>
-    by_cases hin : inLoop st = true
-    · simp only [step, hin, if_true]
-      cases hs : st.vm.stack with
-      | nil => simp
-      | cons f rest =>
-        cases hcs : st.conts with
-        | nil => simp
-        | cons k ks =>
-          cases k with
-          | native a b => simp
-          | importing a b => simp
-          | loop x =>
-            have hp := popTo_fields f rest st.vm
-            rcases hpt : popTo f rest st.vm with ⟨vm1, b⟩
-            rw [hpt] at hp
-            simp only [] at hp
-            cases b with
-            | false => simp [hpt, hp]
-            | true => cases x <;> simp [hpt, truncate, hp]
-    · simp [step, hin]
-  | nativeRet ok =>
-    by_cases hin : inLoop st = true
-    · simp [step, hin]
-    · simp only [step, hin, Bool.false_eq_true, if_false]
-      cases hcs : st.conts with
-      | nil => simp
-      | cons k ks =>
-        cases k with
-        | loop x => simp
-        | importing a b => simp
-        | native fb host =>
-          cases ok with
-          | true =>
-            have hn : (nativeOk fb st.vm).seq = st.vm.seq ∧ (nativeOk fb st.vm).str = st.vm.str := by
-              cases hs : st.vm.stack <;> simp [nativeOk, hs, truncate]
-            cases host <;> simp [truncate, hn]
-          | false =>
-            cases host with
-            | none =>
-              have := raise_keeps_builders ks true st.vm
-              simpa using ⟨this.1, this.2.1⟩
-            | some rr =>
-              have := raise_keeps_builders ks true (if rr.2 then truncate rr.1 st.vm else st.vm)
-              cases hr2 : rr.2 <;> simp [hr2, truncate] at this <;> simpa [hr2] using ⟨this.1, this.2.1⟩
-  | importEnd ok =>
-    by_cases hin : inLoop st = true
-    · simp [step, hin]
-    · simp only [step, hin, Bool.false_eq_true, if_false]
-      cases hcs : st.conts with
-      | nil => simp
-      | cons k ks =>
-        cases k with
-        | loop x => simp
-        | native a b => simp
-        | importing m saved =>
-          cases ok with
-          | true => simp
-          | false =>
-            have := raise_keeps_builders ks true
-              { st.vm with placeholders := st.vm.placeholders.erase m, exports := saved }
-            simpa using ⟨this.1, this.2.1⟩
-
 theorem builderFree_cons (ev : Ev) (rest : List Ev) (h : builderFree (ev :: rest) = true) :
-    builderFree [ev] = true ∧ builderFree rest = true := by
+    ev ≠ .seqEnd ∧ ev ≠ .strEnd ∧ builderFree rest = true := by
   cases ev <;> simp_all [builderFree]
 
-theorem runUntil_builders (d : Nat) : ∀ (evs : List Ev) (st : St), builderFree evs = true →
-    (runUntil d evs st).vm.seq = st.vm.seq ∧ (runUntil d evs st).vm.str = st.vm.str := by
+theorem safeUntil_of_builderFree (B : Bnd) (d : Nat) : ∀ (evs : List Ev) (st : St),
+    builderFree evs = true → SafeUntil B d evs st := by
   intro evs
   induction evs with
-  | nil => intro st _; simp [runUntil]
+  | nil => intro st _; trivial
   | cons ev rest ih =>
     intro st h
     have hb := builderFree_cons ev rest h
-    simp only [runUntil]
+    simp only [SafeUntil]
     split
-    · simp
-    · have h1 := step_builders_of_not_builder_event ev st hb.1
-      have h2 := ih (step ev st) hb.2
-      exact ⟨by rw [h2.1, h1.1], by rw [h2.2, h1.2]⟩
+    · trivial
+    · exact ⟨⟨fun he => absurd he hb.1, fun he => absurd he hb.2.1⟩, ih _ hb.2.2⟩
 
-theorem entry_clean_partial (s : St) (pre args a : Nat) (evs : List Ev)
-    (hconts : s.conts = []) (hstack : s.vm.stack = []) (hbase : s.vm.base = 0)
-    (hmin : s.vm.minRegs = 0) (hregs : s.vm.regs = 0)
-    (hb : builderFree evs = true)
-    (hex : Exited s (runEntry pre args (.koto a) evs s)) :
-    Clean s.vm (runEntry pre args (.koto a) evs s).vm := by
-  have h := toplevel_entry_clean s pre args a evs hconts hstack hbase hmin hregs hex
-  have hbu := runUntil_builders s.conts.length evs (enter pre args (.koto a) s) hb
-  simp only [] at h
-  refine ⟨by rw [h.1, hregs], by rw [h.2.1, hstack], by rw [h.2.2.1, hbase], by rw [h.2.2.2.1, hmin],
-    ?_, ?_, h.2.2.2.2.1⟩
-  · show (runUntil _ _ _).vm.seq = _
-    rw [hbu.1]; simp [enter, enterWith, callKoto, pushFrame]
-  · show (runUntil _ _ _).vm.str = _
-    rw [hbu.2]; simp [enter, enterWith, callKoto, pushFrame]
-
-/-- The same for an arbitrary consistent caller state (e.g. a native callback deep inside a run). -/
+/-- Corollary: executions without builder events (the former `entry_clean_partial`; the exclusion
+of builder events was F-C07-2 and is gone — see `entry_clean`). -/
 theorem entry_clean_builder_free (s : St) (pre args a : Nat) (evs : List Ev)
     (hhost : inLoop s = false) (hc : Consistent s.vm) (hw : s.vm.regs - s.vm.base + pre < 256)
     (hb : builderFree evs = true)
     (hex : Exited s (runEntry pre args (.koto a) evs s)) :
-    Clean s.vm (runEntry pre args (.koto a) evs s).vm := by
-  have h := entry_clean s pre args a evs hhost hc hw hex
-  have hbu := runUntil_builders s.conts.length evs (enter pre args (.koto a) s) hb
-  simp only [] at h
-  obtain ⟨h1, ⟨h2, h3, h4, h5⟩, _⟩ := h
-  refine ⟨h1, h2, h3, h4, ?_, ?_, h5⟩
-  · show (runUntil _ _ _).vm.seq = _
-    rw [hbu.1]; simp [enter, enterWith, callKoto, pushFrame]
-  · show (runUntil _ _ _).vm.str = _
-    rw [hbu.2]; simp [enter, enterWith, callKoto, pushFrame]
+    Clean s.vm (runEntry pre args (.koto a) evs s).vm :=
+  (entry_clean s pre args a evs hhost hc hw (safeUntil_of_builderFree _ _ _ _ hb) hex).1
 
-example : builderFree [.newFrame 4, .call 2 0, .newFrame 1, .raise true] = true ∧
-    Exited init (runEntry 0 0 (.koto 0) [.newFrame 4, .call 2 0, .newFrame 1, .raise true] init) := by
-  decide
+/-- Host-level reading of `entry_clean` (the shape of C07): on an instance whose bookkeeping is
+all-zero, every `run` / `call_function` on a Koto callee, with *any* execution and any outcome,
+leaves the complete clean-state predicate all-zero again — no hypothesis on the execution is
+needed, because with empty builder stacks there is nothing of a caller to pop. -/
+theorem toplevel_entry_clean_full (s : St) (pre args a : Nat) (evs : List Ev)
+    (hconts : s.conts = []) (hstack : s.vm.stack = []) (hbase : s.vm.base = 0)
+    (hmin : s.vm.minRegs = 0) (hregs : s.vm.regs = 0) (hseq : s.vm.seq = 0) (hstr : s.vm.str = 0)
+    (hpre : pre < 256)
+    (hex : Exited s (runEntry pre args (.koto a) evs s)) :
+    Clean s.vm (runEntry pre args (.koto a) evs s).vm := by
+  have hhost : inLoop s = false := by simp [inLoop, hconts]
+  have hc : Consistent s.vm := ⟨by simp [hstack, hbase, topBase], by simp [hstack, hmin, topMin],
+    by simp [hbase]⟩
+  have hsafe : SafeUntil ⟨s.vm.regs, s.vm.seq, s.vm.str, s.vm.seq, s.vm.str⟩ s.conts.length evs
+      (enter pre args (.koto a) s) := by
+    rw [hseq, hstr]; exact safeUntil_zero _ rfl rfl _ _ _
+  exact (entry_clean s pre args a evs hhost hc (by rw [hregs, hbase]; omega) hsafe hex).1
+
+example : Exited init (runEntry 0 0 (.koto 0) [.newFrame 4, .seqStart, .call 2 0, .newFrame 1,
+    .strStart, .raise true] init) := by decide
 
 /-! ## Imports -/
 
@@ -753,7 +651,7 @@ theorem raiseGo_rootExports : ∀ (conts : List Cont) (c : Bool) (vm : VM),
     | native a b => simp [raiseGo, rootExports]
     | importing a b => simp [raiseGo, rootExports]
     | loop x =>
-      have hu := unwindGo_builders c vm.stack vm
+      have hu := unwindGo_exports c vm.stack vm
       have hune : unwind c vm = unwindGo c vm.stack vm := rfl
       rcases hres : unwindGo c vm.stack vm with ⟨vm1, r⟩
       rw [hres] at hu
@@ -761,12 +659,12 @@ theorem raiseGo_rootExports : ∀ (conts : List Cont) (c : Bool) (vm : VM),
       cases r with
       | some cr =>
         rw [raiseGo_loop_some x rest c vm vm1 cr (by rw [hune, hres])]
-        simp [rootExports, levelExports, hu.2.2]
+        simp [rootExports, levelExports, hu]
       | none =>
-        have hx := exitErr_builders x vm1
+        have hx := exitErr_exports x vm1
         cases raiseGo_loop_none x rest c vm vm1 (by rw [hune, hres]) with
-        | inl h => rw [h, ih true (exitErr x vm1), hx.2.2, hu.2.2]; simp [levelExports]
-        | inr h => rw [h]; simp [rootExports, levelExports, hx.2.2, hu.2.2]
+        | inl h => rw [h, ih true (exitErr x vm1), hx, hu]; simp [levelExports]
+        | inr h => rw [h]; simp [rootExports, levelExports, hx, hu]
 
 theorem enterWith_rootExports (t : Bool) (pre args : Nat) (c : Callee) (st : St) :
     rootExports (enterWith t pre args c st) = rootExports st := by
